@@ -140,7 +140,7 @@ def emsa_verify_contract(r=None, lencase=None):
 
 def emsa_encode_contract(r=None, part=None):
     """part None: the whole contract (what callers see); 'main' / 'bound': the two halves it is PROVED in -- `bound` needs the
-    opt-in arithmetic facts (int_lemmas, be_unfold), which make every query of the other clauses slower"""
+    opt-in arithmetic facts (be_unfold, be_range) and a chain of exit lemmas"""
     salt = 'rnd_tape(old(rnd_cursor()))'
     H = S + 'emsa_pss_H(mhash.g_alg, %s, %s)' % (MHASH, salt)
     em = S + 'emsa_pss_em(mhash.g_alg, %s, %s, emBits, %s, mgf(%s, %s - %s - 1))' % (HLEN, MHASH, salt, H, EMLEN, HLEN)
@@ -157,6 +157,8 @@ def emsa_encode_contract(r=None, part=None):
         lemmas['split'] = 'result == bytes([nth(result, 0)]) + result[1:]'
         lemmas['cons'] = ('be(bytes([nth(result, 0)]) + result[1:]) == nth(result, 0) * pow2(8 * (len(result) - 1)) + be(result[1:])')
         lemmas['tail'] = 'be(result[1:]) < pow2(8 * (len(result) - 1))'
+        lemmas['lead_mul'] = 'nth(result, 0) * pow2(8 * (len(result) - 1)) <= %d * pow2(8 * (len(result) - 1))' % (2 ** d - 1)
+        lemmas['be_split'] = 'be(result) == nth(result, 0) * pow2(8 * (len(result) - 1)) + be(result[1:])'
     ensures = {'rfc8017_9_1_1': 'result == ' + em,
                'length': 'len(result) == ' + EMLEN,
                'bound': 'be(result) < pow2(emBits)',
@@ -175,8 +177,8 @@ def emsa_encode_contract(r=None, part=None):
                     lemmas={'exit': lemmas},
                     ensures=ensures,
                     modifies=[], opaque=[S + 'mgf1'],
-                    # opt-in ground facts of positional notation / 2^x (vf/pyvc/models.py be_value, ops.py pow2), used by `bound`
-                    options=({'int_lemmas': [], 'be_unfold': True} if part == 'bound' else {}))
+                    # opt-in ground facts of positional notation (vf/pyvc/models.py be_value: cons instance + range of its tail)
+                    options=({'be_unfold': True, 'be_range': True} if part == 'bound' else {}))
 
 
 def model_emsa_encode(E, st, args, kwargs):
@@ -206,68 +208,60 @@ PSS_MHASH = S + 'Hash(msg_hash.g_alg, msg_hash.g_data)'
 PSS_SLEN = '(msg_hash.digest_size if self._saltLen is None else self._saltLen)'      # default salt length: hLen
 
 
-def pss_mask(seed):
-    """dbMask = MGF(seed, emLen - hLen - 1): the caller's mask_func if one was given, MGF1 with the message hash otherwise"""
-    n = '%s - %s - 1' % (PSS_EMLEN, PSS_HLEN)
-    return '(%smgf1(msg_hash.g_alg, %s, %s) if self._mgfunc is None else self._mgfunc(%s, %s))' % (S, seed, n, seed, n)
+SALT_KINDS = {None: 'nat|none', 'default': 'none', 'given': 'nat'}
+MGF_KINDS = {None: OMGF + '|none', 'mgf1': 'none', 'user': OMGF}
 
 
-def add_scheme(reg):
-    reg.add(ClassContract(SCHEME, fields={'_key': 'obj:' + RSA + 'RsaKey', '_saltLen': 'nat|none', '_mgfunc': OMGF + '|none',
+def add_scheme(reg, salt=None, mgf=None):
+    """salt / mgf: restrict the object to one configuration (salt_bytes given or default, mask_func given or default) -- the
+    2 x 2 configurations are proved in separate units (they are separate entry alternatives of one proof otherwise)"""
+    reg.add(ClassContract(SCHEME, fields={'_key': 'obj:' + RSA + 'RsaKey', '_saltLen': SALT_KINDS[salt], '_mgfunc': MGF_KINDS[mgf],
                                           '_randfunc': RANDFUNC},
                           # domain: moduli of at most 2^32 octets (see module docstring: MGF1 is defined for masks <= 2^32 hLen)
                           valid=['%s <= %s' % (K, TWO32)]))
 
 
 def pss_verify_contract():
-    m = 'pow(be(signature), %s, %s)' % (KEY_E, KEY_N)                                    # 8.1.2 step 2b: m = RSAVP1((n, e), s)
-    em = 'i2osp(%s, %s)' % (m, PSS_EMLEN)                                                # step 2c: EM = I2OSP(m, emLen)
-    H = S + 'pss_H(%s, %s, %s)' % (em, PSS_EMBITS, PSS_HLEN)
-    ok = S + 'emsa_pss_ok(msg_hash.g_alg, %s, %s, %s, %s, %s, %s)' % (PSS_HLEN, PSS_MHASH, em, PSS_EMBITS, PSS_SLEN, pss_mask(H))
-    accept = ('len(signature) == %s and be(signature) < %s and %s < pow2(8 * %s) and %s' % (K, KEY_N, m, PSS_EMLEN, ok))
+    accepts = S + 'pss_accepts(msg_hash.g_alg, %s, %s, signature, %s, %s, %s, self._mgfunc)' % (PSS_HLEN, PSS_MHASH, KEY_N, KEY_E, PSS_SLEN)
     return Contract(SCHEME + '.verify', params={'msg_hash': OHASH, 'signature': 'bytes'},
                     # RFC 8017 8.1.2: "invalid signature" unless len(S) == k (step 1), s < n (RSAVP1), m < 256^emLen (I2OSP, step 2c)
-                    # and EMSA-PSS-VERIFY(M, EM, modBits - 1) == "consistent" (steps 3-4)
-                    raises={'ValueError': ('iff', 'not (%s)' % accept)},
+                    # and EMSA-PSS-VERIFY(M, EM, modBits - 1) == "consistent" (steps 3-4); mgf default = MGF1 with the message hash,
+                    # sLen default = hLen
+                    raises={'ValueError': ('iff', 'not ' + accepts)},
                     ensures={'none': 'result is None'},
                     modifies=[], opaque=[S + 'mgf1', S + 'emsa_pss_consistent'])
 
 
 def pss_sign_contract():
-    def terms(salt):
-        H = S + 'emsa_pss_H(msg_hash.g_alg, %s, %s)' % (PSS_MHASH, salt)
-        em = S + 'emsa_pss_em(msg_hash.g_alg, %s, %s, %s, %s, %s)' % (PSS_HLEN, PSS_MHASH, PSS_EMBITS, salt, pss_mask(H))
-        sig = 'pow(be(%s), %s, %s)' % (em, KEY_D, KEY_N)                                 # 8.1.1 step 2b: s = RSASP1(K, OS2IP(EM))
-        return em, sig
+    def em(salt):
+        return S + 'pss_em(msg_hash.g_alg, %s, %s, %s, %s, self._mgfunc)' % (PSS_HLEN, PSS_MHASH, MODBITS, salt)
     short = '%s < %s + %s + 2' % (PSS_EMLEN, PSS_HLEN, PSS_SLEN)                         # 9.1.1 step 3: "encoding error"
     # `raises` conditions are evaluated in the entry state: the salt is the next draw of the caller's tape
-    em0, sig0 = terms('rnd_tape(rnd_cursor())')
-    fault = 'be(%s) != pow(%s, %s, %s)' % (em0, sig0, KEY_E, KEY_N)                      # the library's fault check
+    fault = S + 'pss_fault(%s, %s, %s, %s)' % (em('rnd_tape(rnd_cursor())'), KEY_D, KEY_E, KEY_N)     # the library's fault check
     salt = 'rnd_tape(old(rnd_cursor()))'
-    em, sig = terms(salt)
     return Contract(SCHEME + '.sign', params={'msg_hash': OHASH},
                     # (RSASP1's "message representative out of range" cannot occur: OS2IP(EM) < 2^(modBits-1) <= n, clause `bound` of
                     # _EMSA_PSS_ENCODE and the defining inequality of the bit length)
                     raises={'ValueError': ('iff', '%s or (hasattr(self._key, "_d") and %s)' % (short, fault)),
                             'TypeError': ('iff', 'not hasattr(self._key, "_d") and not (%s)' % short)},
                     result='bytes',
-                    ensures={'rfc8017_8_1_1': 'result == i2osp(%s, %s)' % (sig, K),
+                    ensures={'rfc8017_8_1_1': 'result == ' + S + 'pss_signature(%s, %s, %s, %s)' % (em(salt), KEY_D, KEY_N, K),
                              'salt': 'len(%s) == %s' % (salt, PSS_SLEN),
                              'entropy': 'rnd_cursor() == old(rnd_cursor()) + 1'},
                     modifies=[], opaque=[S + 'mgf1', S + 'emsa_pss_em'], options={'int_lemmas': []})
 
 
-def registry(r=None, lencase=None, part=None):
+def registry(r=None, lencase=None, part=None, salt=None, mgf=None):
     r = None if r in (None, '') else int(r)
     lencase = lencase or None
-    part = part or None
+    part, salt, mgf = part or None, salt or None, mgf or None
     reg = common_registry()
     add_rsa_key(reg)
     add_mgf(reg)
     reg.add(emsa_verify_contract(r, lencase))
     reg.add(emsa_encode_contract(r, part))
     reg.models[P + '_EMSA_PSS_ENCODE'] = model_emsa_encode
-    add_scheme(reg)
+    add_scheme(reg, salt, mgf)
     reg.add(pss_verify_contract())
     reg.add(pss_sign_contract())
     return reg
@@ -283,7 +277,14 @@ def units(prop, tier):
             for lc in ('eq', 'ne'):
                 out.append(pyvc_unit(prop, 'sig.pss.emsa_verify.embits_mod8_%d.len_%s' % (r, lc), (lambda r=r, lc=lc: registry(r, lc)),
                                      [P + '_EMSA_PSS_VERIFY']))
-            out.append(pyvc_unit(prop, 'sig.pss.emsa_encode.embits_mod8_%d' % r, (lambda r=r: registry(r)), [P + '_EMSA_PSS_ENCODE']))
-        out.append(pyvc_unit(prop, 'sig.pss.verify', registry, [SCHEME + '.verify']))
-        out.append(pyvc_unit(prop, 'sig.pss.sign', registry, [SCHEME + '.sign']))
+            out.append(pyvc_unit(prop, 'sig.pss.emsa_encode.embits_mod8_%d' % r, (lambda r=r: registry(r, None, 'main')),
+                                 [P + '_EMSA_PSS_ENCODE']))
+            out.append(pyvc_unit(prop, 'sig.pss.emsa_encode_bound.embits_mod8_%d' % r, (lambda r=r: registry(r, None, 'bound')),
+                                 [P + '_EMSA_PSS_ENCODE']))
+        for salt in ('default', 'given'):
+            for mgf in ('mgf1', 'user'):
+                out.append(pyvc_unit(prop, 'sig.pss.verify.salt_%s.mgf_%s' % (salt, mgf),
+                                     (lambda a=salt, b=mgf: registry(None, None, None, a, b)), [SCHEME + '.verify']))
+                out.append(pyvc_unit(prop, 'sig.pss.sign.salt_%s.mgf_%s' % (salt, mgf),
+                                     (lambda a=salt, b=mgf: registry(None, None, None, a, b)), [SCHEME + '.sign']))
     return out
